@@ -9,7 +9,7 @@ MANIFEST = (
     "exploration",
     "runtime monitor: differential oracle (own long-double volume/area/centroid/AABB/normals, own Jacobi PCA, own topology "
     "oracle) + metamorphic relations (rigid motion, renumbering, uniform scaling incl. bit-exact powers of two, winding flips) "
-    "over seeded closed genus-0 meshes; ASan/UBSan on part of the same workload",
+    "over seeded closed genus-0 meshes; ASan/UBSan on part of the same workload; longest axis asked for by 16 threads at once against each cell alone (and under TSan)",
     "Held on every generated mesh of the run: 620 (quick) / 165 000 (thorough) closed genus-0 meshes, plus 1 600 / 182 000 cells with a history (icospheres, boxes, UV "
     "spheres, prisms, ellipsoids, star-shaped bodies, tetrahedra, octahedra; 4..1280 triangles, jitter, anisotropic stretch, "
     "sizes 1e-6..1e1, distance from the origin 0..1e3 radii, optional unreferenced node), each built 9 times (base + 8 "
